@@ -17,8 +17,9 @@ OfKind(k) ==
     CASE k = "ks"      -> \/ \E n \in Names : CreateKeyspace(n)
                           \/ \E n \in Names, b \in BOOLEAN : DeleteKeyspace(n, b)
                           \/ \E id \in Ids : DropHandle(id)
+                          \/ \E id \in Ids, n2 \in Names, k1, k2 \in Keys, d1, d2 \in BOOLEAN : StaleBatch(id, k1, d1, n2, k2, d2)
       [] k = "write"   -> \E n \in Names, kk \in Keys, d \in BOOLEAN : Write(n, kk, d)
-      [] k = "batch"   -> \E n1, n2 \in Names, k1, k2 \in Keys, d1, d2 \in BOOLEAN : BatchCommit(n1, k1, d1, n2, k2, d2)
+      [] k = "batch"   -> \E n1, n2 \in Names, k1, k2 \in Keys, d1, d2 \in BOOLEAN, dur \in BatchDurs : BatchCommit(n1, k1, d1, n2, k2, d2, dur)
       [] k = "clear"   -> \E n \in Names : Clear(n)
       [] k = "ingest"  -> \E n \in Names, ks \in SUBSET Keys, tb \in SUBSET Keys : Ingest(n, ks, tb)
       [] k = "rotate"  -> \E n \in Names : Rotate(n)
